@@ -52,6 +52,18 @@ class Gen:
             return Number(T, -n)
         return Number(T, n)
 
+    def underflow(self, d):
+        """A natural-number term in which some subtraction is truncated (minuend <= subtrahend)."""
+        r = self.r
+        a, b = sorted([r.randint(0, 12), r.randint(0, 12)])
+        core = kterm.minus(NatType)(Nat(a), Nat(b + r.choice([0, 1, 3])))
+        c = r.random()
+        if c < 0.4 or d <= 1:
+            return core
+        if c < 0.7:
+            return kterm.plus(NatType)(kterm.times(NatType)(Nat(r.randint(1, 4)), core), Nat(r.randint(0, 5)))
+        return kterm.minus(NatType)(self.expr(NatType, d - 2), core) if r.random() < 0.5 else kterm.plus(NatType)(core, self.expr(NatType, d - 2))
+
     def expr(self, T, d):
         r = self.r
         if d == 0 or r.random() < 0.25:
@@ -82,43 +94,48 @@ class Gen:
         if op == 'inverse':
             return Const('real_inverse', TFun(RealType, RealType))(self.expr(T, d - 1))
         if op == 'of_nat':
-            return kterm.of_nat(RealType)(self.expr(NatType, d - 1))
+            return kterm.of_nat(RealType)(self.underflow(d) if r.random() < 0.4 else self.expr(NatType, d - 1))
         if op == 'of_int':
             return kterm.of_int(RealType)(self.expr(IntType, d - 1))
         if op == 'of_nat_int':
-            return kterm.of_nat(IntType)(self.expr(NatType, d - 1))
+            return kterm.of_nat(IntType)(self.underflow(d) if r.random() < 0.4 else self.expr(NatType, d - 1))
         if op == 'power':
             return kterm.nat_power(T)(self.expr(T, d - 1), Nat(r.randint(0, 4)))
         raise AssertionError
 
 
-def py_sem(t):
+def py_sem_plain(t):
+    """py_sem with every subtraction untruncated: the value a type-blind evaluator would report."""
+    return py_sem(t, plain=True)
+
+
+def py_sem(t, plain=False):
     """Independent exact evaluator following the type annotations (used only to
     build mostly-true goals; truth is decided by NumEval.sem in Coq)."""
     T = t.get_type()
     if t.is_number():
         return Fraction(t.dest_number())
     if t.is_comb('Suc', 1):
-        return py_sem(t.arg) + 1
+        return py_sem(t.arg, plain) + 1
     if t.is_comb('of_nat', 1) or t.is_comb('of_int', 1):
-        return py_sem(t.arg)
+        return py_sem(t.arg, plain)
     if t.is_uminus():
-        return -py_sem(t.arg)
+        return -py_sem(t.arg, plain)
     if t.is_comb('real_inverse', 1):
-        x = py_sem(t.arg)
+        x = py_sem(t.arg, plain)
         return Fraction(0) if x == 0 else 1 / x
     if t.is_plus():
-        return py_sem(t.arg1) + py_sem(t.arg)
+        return py_sem(t.arg1, plain) + py_sem(t.arg, plain)
     if t.is_times():
-        return py_sem(t.arg1) * py_sem(t.arg)
+        return py_sem(t.arg1, plain) * py_sem(t.arg, plain)
     if t.is_minus():
-        x, y = py_sem(t.arg1), py_sem(t.arg)
-        return max(Fraction(0), x - y) if T == NatType else x - y
+        x, y = py_sem(t.arg1, plain), py_sem(t.arg, plain)
+        return max(Fraction(0), x - y) if (T == NatType and not plain) else x - y
     if t.is_divides():
-        x, y = py_sem(t.arg1), py_sem(t.arg)
+        x, y = py_sem(t.arg1, plain), py_sem(t.arg, plain)
         return Fraction(0) if y == 0 else x / y
     if t.is_comb('power', 2):
-        return py_sem(t.arg1) ** int(py_sem(t.arg))
+        return py_sem(t.arg1, plain) ** int(py_sem(t.arg, plain))
     raise ValueError(sstr(t))
 
 
@@ -166,6 +183,12 @@ def run_check(tier, seed):
         elif c < 0.75 and val is not None:
             # near miss: off by one / sign / truncated-vs-plain difference
             v2 = val + r.choice([1, -1]) if r.random() < 0.6 else -val
+            try:
+                pv = py_sem_plain(lhs)
+                if pv != val and r.random() < 0.8:
+                    v2 = pv
+            except Exception:
+                pass
             if T == NatType:
                 v2 = abs(v2)
             if T != RealType:
